@@ -1,5 +1,6 @@
 import KoordVerif.Proofs.C02Iter
 import KoordVerif.Proofs.C02Perm
+import KoordVerif.Proofs.C02Scale
 /-
 C02 — property theorems (DESIGN.md §4 C02).  `redistributeN total ns` is the model of
 `quotaTree.redistribution(total)` over the sibling list `ns`: it returns every sibling with
@@ -263,6 +264,103 @@ theorem order_independent_mem (total : Int) (ns₁ ns₂ : List Node) (h : ns₁
     (q : Node × Int) : q ∈ (redistributeN total ns₁).1 ↔ q ∈ (redistributeN total ns₂).1 :=
   (order_independent total ns₁ ns₂ h hnd).1.mem_iff
 
+/-! ### 5c. minimums are scaled down only when they do not fit, and then they fit again -/
+
+inductive SMOp where
+  | upd (n : Nat) (min : Int) (enable : Bool)
+  | rem (n : Nat)
+deriving Repr
+
+def SMOp.ok : SMOp → Prop
+  | .upd _ min _ => 0 ≤ min
+  | .rem _ => True
+
+def SM.step (s : SM) : SMOp → SM
+  | .upd n min e => s.update n min e
+  | .rem n => s.remove n
+
+/-- over ANY history of update/remove calls (non-negative minimums) the two recorded sums are exactly
+    the sums of the minimums of the children currently recorded, scalable and non-scalable; the
+    non-negative clamps never absorb anything. -/
+theorem scale_sums_exact (ops : List SMOp) (hok : ∀ op ∈ ops, op.ok) :
+    (ops.foldl SM.step SM.init).Inv := by
+  have gen : ∀ (s : SM), s.Inv → (ops.foldl SM.step s).Inv := by
+    induction ops with
+    | nil => intro s hs; exact hs
+    | cons op ops ih =>
+      intro s hs
+      simp only [List.foldl_cons]
+      apply ih (fun o ho => hok o (by simp [ho]))
+      cases op with
+      | upd n min e =>
+        have h0 : (SMOp.upd n min e).ok := hok (SMOp.upd n min e) (by simp)
+        exact update_inv s hs n min e h0
+      | rem n => exact remove_inv s hs n
+  exact gen _ init_inv
+
+/-- when the children's minimums fit into the total, a scalable child keeps its declared minimum. -/
+theorem scaled_fits_unchanged (share : Int → Int → Int → Int) (s : SM) (total : Int) (n : Nat) (c : SMChild)
+    (hc : smFind s.children n = some c) (hk : s.known = true) (he : c.enable = true)
+    (hfit : s.disableSum + s.enableSum ≤ total) : s.scaled share total n = some c.min := by
+  unfold SM.scaled
+  rw [hc]
+  have : ¬ total < s.disableSum + s.enableSum := by omega
+  simp [hk, he, this]
+
+/-- a child that is not scalable (or not recorded) is never scaled. -/
+theorem scaled_none_unless_scalable (share : Int → Int → Int → Int) (s : SM) (total : Int) (n : Nat) :
+    (smFind s.children n = none ∨ ∃ c, smFind s.children n = some c ∧ c.enable = false) →
+    s.scaled share total n = none := by
+  intro h
+  unfold SM.scaled
+  rcases h with h | ⟨c, hc, he⟩
+  · rw [h]
+  · rw [hc]; simp [he]
+
+theorem floor_sum_le (E : Int) (hE : 0 < E) (xs : List Int) :
+    (xs.map (· / E)).sum ≤ xs.sum / E := by
+  induction xs with
+  | nil => simp
+  | cons x xs ih =>
+    simp only [List.map_cons, List.sum_cons]
+    apply Int.le_ediv_of_mul_le hE
+    have h1 := Int.ediv_mul_le x (show E ≠ 0 by omega)
+    have h2 := Int.ediv_mul_le xs.sum (show E ≠ 0 by omega)
+    have h3 : (xs.map (· / E)).sum * E ≤ xs.sum / E * E := Int.mul_le_mul_of_nonneg_right ih (by omega)
+    rw [Int.add_mul]
+    omega
+
+/-- with exact arithmetic the scaled minimums of all scalable children together fit into what is left after
+    the non-scalable minimums, and no minimum is scaled up. -/
+theorem scaled_shares_fit (cs : List SMChild) (avail : Int) (havail : 0 ≤ avail)
+    (hnn : ∀ c ∈ cs, 0 ≤ c.min) (hE : 0 < eSum cs) :
+    ((cs.filter (·.enable)).map (fun c => exactShare avail c.min (eSum cs))).sum ≤ avail ∧
+    (avail ≤ eSum cs → ∀ c ∈ cs, exactShare avail c.min (eSum cs) ≤ c.min) := by
+  constructor
+  · have hmap : ((cs.filter (·.enable)).map (fun c => exactShare avail c.min (eSum cs))) =
+        ((cs.filter (·.enable)).map (fun c => avail * c.min)).map (· / eSum cs) := by
+      rw [List.map_map]; rfl
+    rw [hmap]
+    refine Int.le_trans (floor_sum_le (eSum cs) hE _) ?_
+    have hsum : ((cs.filter (·.enable)).map (fun c => avail * c.min)).sum = avail * eSum cs := by
+      clear hmap hE hnn
+      induction cs with
+      | nil => simp [eSum]
+      | cons c cs ih =>
+        cases hce : c.enable
+        · simp only [List.filter_cons, hce, Bool.false_eq_true, if_false, eSum, List.map_cons, List.sum_cons]
+          simp only [eSum] at ih; rw [ih]; simp
+        · simp only [List.filter_cons, hce, if_true, eSum, List.map_cons, List.sum_cons]
+          simp only [eSum] at ih; rw [ih, Int.mul_add]
+    rw [hsum, Int.mul_ediv_cancel _ (show eSum cs ≠ 0 by omega)]
+    exact Int.le_refl _
+  · intro hle c hc
+    unfold exactShare
+    apply Int.ediv_le_of_le_mul hE
+    have := hnn c hc
+    calc avail * c.min ≤ eSum cs * c.min := Int.mul_le_mul_of_nonneg_right hle this
+      _ = c.min * eSum cs := Int.mul_comm _ _
+
 /-! ### 6. the version-stamped cache never serves a stale runtime -/
 
 /-- cache invariant: an entry stamped with the current version holds the from-scratch value. -/
@@ -353,6 +451,8 @@ example : redistribute 950 [⟨1, 3, 700, 100, 0, true⟩, ⟨2, 1, 350, 200, 0,
 
 example : NamesNodup [⟨1, 3, 700, 100, 0, true⟩, ⟨2, 1, 350, 200, 0, false⟩, ⟨3, 0, 900, 250, 0, true⟩] := by
   simp [NamesNodup]
+
+example : ((SM.init.update 1 50 true).update 2 50 true |>.update 3 20 false).scaled exactShare 100 1 = some 40 := by decide
 
 example : (⟨1, 0, [], []⟩ : Calc).Fresh := by intro name v rt h; simp [cacheGet] at h
 
